@@ -142,6 +142,9 @@ fn cfg_opt(cfg: &str, name: &str) -> Option<String> {
 /// What the receiving application shows.
 #[derive(Default)]
 struct TextBuf {
+    /// the dead key (Quote, only ever typed for the single-output mapping) was pressed: it shows
+    /// nothing by itself and merges with the next character into one displayed character
+    dead: bool,
     text: Vec<Ch>,
     down: BTreeSet<String>,
     underflow: u32,
@@ -167,9 +170,15 @@ impl TextBuf {
                     return;
                 }
                 if k == "BSpace" {
+                    self.dead = false;
                     if self.text.pop().is_none() {
                         self.underflow += 1;
                     }
+                } else if k == "Quote" && !self.dead {
+                    self.dead = true;
+                } else if self.dead {
+                    self.dead = false;
+                    self.text.push((format!("Quote+{k}"), self.shift() && k != "Space", self.down.contains("RAlt")));
                 } else {
                     // shift + space is still a space
                     let ch = (k.clone(), self.shift() && k != "Space", self.down.contains("RAlt"));
@@ -544,7 +553,7 @@ fn run_model(dict: &Dict, ops: &[Op], d: u64, idle: u64, smart: &str) -> Model {
 }
 
 /// punctuation / other mapped output characters used by the generator
-const MAPPINGS: &[(char, &str, &str, bool, bool)] = &[('!', "S-1", "Kb1", true, false), ('?', "S-/", "Slash", true, false), ('é', "AG-e", "E", false, true), ('€', "S-AG-5", "Kb5", true, true)];
+const MAPPINGS: &[(char, &str, &str, bool, bool)] = &[('!', "S-1", "Kb1", true, false), ('?', "S-/", "Slash", true, false), ('é', "AG-e", "E", false, true), ('€', "S-AG-5", "Kb5", true, true), ('ô', "(single-output ' o)", "Quote+O", false, false)];
 
 impl Prop for C20 {
     fn id(&self) -> &'static str {
@@ -569,6 +578,12 @@ impl Prop for C20 {
         let mut chord_keys: Vec<char> = pool[..nk].to_vec();
         if r.chance(250) {
             chord_keys.push(' ');
+        }
+        // a smart-space punctuation key may itself be a chord key: pressed after a smart space it
+        // erases the space, and the chord it then forms erases the punctuation character like any
+        // other character typed while forming a chord
+        if r.chance(150) {
+            chord_keys.push(*r.pick(&['.', ',']));
         }
         let neutral: Vec<char> = pool[nk..nk + 3].to_vec();
         let with_map = r.chance(300);
